@@ -17,6 +17,8 @@
 package model
 
 import (
+	"sort"
+
 	"istio.io/istio/pkg/config/host"
 	"istio.io/istio/pkg/config/visibility"
 	"istio.io/istio/pkg/util/sets"
@@ -75,6 +77,28 @@ func indexedByOwnNamespace(byNamespace map[string]*Service) bool {
 		s, ok := byNamespace[ns]
 		return !ok || (s != nil && s.NamespacedName().Namespace == ns)
 	})
+}
+
+// The standard library's sort rearranges the strings of the slice it is handed, and does nothing else
+// (assumed: the standard library is not loaded from source).
+//
+//verif:trusted-contract sort.Strings
+func ctSortStrings(x []string) {
+	sort.Strings(x)
+	verif.Ensures("every-string-came-from-somewhere", verif.Forall(func(i int) bool {
+		if !(0 <= i && i < len(x)) {
+			return true
+		}
+		now := x[i]
+		return verif.Exists(func(j int) bool { return 0 <= j && j < len(x) && verif.Old(func() string { return x[j] }) == now })
+	}))
+	verif.Ensures("every-string-went-somewhere", verif.Forall(func(i int) bool {
+		if !(0 <= i && i < len(x)) {
+			return true
+		}
+		was := verif.Old(func() string { return x[i] })
+		return verif.Exists(func(j int) bool { return 0 <= j && j < len(x) && x[j] == was })
+	}))
 }
 
 //verif:contract pickFirstVisibleNamespace
